@@ -91,3 +91,116 @@ func init() {
 		return int64(lo)
 	})
 }
+
+// ---------- further symbolic models added for robustness against changed code ----------
+
+func iCut(m *machine, fr *frame, args []value) value {
+	s, sc := strArg(args[0])
+	sepT, sepc := strArg(args[1])
+	if !sepc {
+		panic(cut{"strings.Cut with symbolic separator"})
+	}
+	if sc {
+		a, b, ok := strings.Cut(s.S, sepT.S)
+		return tuple{a, b, ok}
+	}
+	if sepT.S == "" {
+		return tuple{"", fromTerm(s), true}
+	}
+	if !m.truth(fromTerm(mkContains(s, sepT))) {
+		return tuple{fromTerm(s), "", false}
+	}
+	x, y := m.splitFirst(s, sepT.S)
+	return tuple{fromTerm(x), fromTerm(y), true}
+}
+
+func iCutPrefix(m *machine, fr *frame, args []value) value {
+	s, _ := strArg(args[0])
+	p, _ := strArg(args[1])
+	r, ok := m.cutPrefix(s, p)
+	return tuple{fromTerm(r), ok}
+}
+
+func iCutSuffix(m *machine, fr *frame, args []value) value {
+	s, sc := strArg(args[0])
+	p, pc := strArg(args[1])
+	if sc && pc {
+		r, ok := strings.CutSuffix(s.S, p.S)
+		return tuple{r, ok}
+	}
+	if !m.branch(mkSuffixOf(p, s)) {
+		return tuple{fromTerm(s), false}
+	}
+	r := m.freshStr("ts")
+	m.assume(mkStrEq(s, mkConcat(r, p)))
+	return tuple{fromTerm(r), true}
+}
+
+func iLookupEnv(m *machine, fr *frame, args []value) value {
+	k := concreteStr(args[0], "os.LookupEnv key")
+	m.envRead[k] = true
+	if v, ok := m.env[k]; ok {
+		return tuple{v, true}
+	}
+	return tuple{"", false}
+}
+
+// strings.Builder shares the content-per-object model of bytes.Buffer.
+func iBuilderWriteByte(m *machine, fr *frame, args []value) value {
+	b := m.bufferOf(args[0].(*value))
+	c, ok := args[1].(int64)
+	if !ok {
+		if u, ok2 := args[1].(uint8); ok2 {
+			c, ok = int64(u), true
+		}
+	}
+	if !ok {
+		panic(cut{"WriteByte with a symbolic byte"})
+	}
+	*b = fromTerm(mkConcat(toTerm(*b), mkStr(string([]byte{byte(c)}))))
+	return iface{}
+}
+
+func iBuilderWriteRune(m *machine, fr *frame, args []value) value {
+	b := m.bufferOf(args[0].(*value))
+	r, ok := args[1].(int64)
+	if !ok {
+		if u, ok2 := args[1].(int32); ok2 {
+			r, ok = int64(u), true
+		}
+	}
+	if !ok {
+		panic(cut{"WriteRune with a symbolic rune"})
+	}
+	s := string(rune(r))
+	*b = fromTerm(mkConcat(toTerm(*b), mkStr(s)))
+	return tuple{int64(len(s)), iface{}}
+}
+
+func iBufferReset(m *machine, fr *frame, args []value) value {
+	*m.bufferOf(args[0].(*value)) = ""
+	return nil
+}
+
+func init() {
+	add := func(name string, f intrinsic) {
+		if _, exists := intrinsics[name]; !exists {
+			intrinsics[name] = f
+		}
+	}
+	add("strings.Cut", iCut)
+	add("strings.CutPrefix", iCutPrefix)
+	add("strings.CutSuffix", iCutSuffix)
+	add("os.LookupEnv", iLookupEnv)
+	add("(*strings.Builder).WriteString", iBufferWriteString)
+	add("(*strings.Builder).String", iBufferString)
+	add("(*strings.Builder).Len", iBufferLen)
+	add("(*strings.Builder).WriteByte", iBuilderWriteByte)
+	add("(*strings.Builder).WriteRune", iBuilderWriteRune)
+	add("(*strings.Builder).Reset", iBufferReset)
+	add("(*strings.Builder).Grow", noop)
+	add("(*bytes.Buffer).WriteByte", iBuilderWriteByte)
+	add("(*bytes.Buffer).WriteRune", iBuilderWriteRune)
+	add("(*bytes.Buffer).Reset", iBufferReset)
+	add("(*bytes.Buffer).Grow", noop)
+}
